@@ -81,7 +81,7 @@ def _group_scenario(gseed: int) -> dict:
             e.pop("batch", None)
             e["pts"] = e["pts"][:1]
         steps = [{"kind": "optimizer", "cfg": 0,
-                  "nested": {"steps": [{"kind": "optimizer", "cfg": 1}], "recorders": ["a", "b"],
+                  "nested": {"steps": [{"kind": "optimizer", "cfg": 1} for _ in range(rng.choice([1, 1, 2]))], "recorders": ["a", "b"],
                              "trackers": [{"what": "best", "tol": None, "sources": [0]}]}}]
     # one more step that must be refused after an abort
     steps.append({"kind": "evaluator", "cfg": 0})
@@ -150,7 +150,7 @@ def check_run(ctx, scn, abort, viol, probes) -> int:
         if fired and abort_event == rec.n:
             r = abort["receiver"]
             cut = want[: want.index(r) + 1] if r in want else want
-            if got != cut:
+            if got != cut and got != want:  # (the later receivers may or may not get the event at which one of them aborts)
                 viol.append({"clause": "delivery-at-abort-event", "sig": {},
                              "detail": f"event {rec.n} {rec.type.name} (abort raised by {r}): delivered to {got}, expected {cut}"})
             continue
